@@ -29,10 +29,14 @@ def jobs(tier, seed):
                   P=dict(P, p_fail_cmd=0.03), scheds=2, p_fail=0.3, exotic=0.5, ctl=dict(rerun=1.0), name="default-rerun")
     js += batches("ctl_sweep", scale(tier, 20, 600), scale(tier, 2, 20), gen="mix", p_loop=0.3, gseed=seed + 7,
                   P=dict(P, nmax=6), modes=["pause"], name="pause-sweep")
+    # pause, then cancel while a with-items task rests between items and other actions still run
+    js += batches("ctl_sweep", scale(tier, 40, 1000), scale(tier, 4, 25), gen="dag", gseed=seed + 8, p_fail=0.1,
+                  P=dict(p_items=0.55, nmax=4, p_join=0.3, p_retry=0.1, p_expr_conc=0.3, xs_max=3), modes=["pause_then_cancel"],
+                  name="pause-then-cancel")
     # the repository's own fixture definitions under generated outcomes, schedules and requests
     js += [dict(fn="corpus", parts=4, part=i, runs=scale(tier, 4, 40), gseed=seed, ctl=dict(req=0.08, max_req=3, reqs=["pausing", "paused", "resuming", "running", "canceling"]), name="corpus") for i in range(4)]
     # decision-shape family (exhaustive in the thorough tier, a rotating slice in the quick tier): every acyclic edge set over 4 tasks with a join x condition succeeded/failed per edge x outcome per task (4128 definitions)
-    js += family_slices("ctl_sweep", 4128, 24, tier, seed, parts=6, gen="cshape", modes=["pause", "cancel"], p_fail=0.0, name="decision-shapes-sweep")
+    js += family_slices("ctl_sweep", 4128, 24, tier, seed, parts=12, gen="cshape", modes=["pause", "cancel"], p_fail=0.0, name="decision-shapes-sweep")
     return js
 
 
